@@ -455,8 +455,7 @@ class Ovld:
             if self.linkback:
                 mixin.children.append(self)
         self.mixins += mixins
-        if self._compiled:
-            self._update()
+        self._update()
 
     def _key_error(self, key, possibilities=None):
         typenames = sigstring(key)
